@@ -1,6 +1,7 @@
 use crate::engine::{Ctx, Fail, Report};
 use serde_json::Value;
 
+pub mod c02;
 pub mod c08;
 pub mod c10;
 pub mod c11;
@@ -14,6 +15,7 @@ pub struct PropDef {
 
 pub fn registry() -> Vec<PropDef> {
     vec![
+        PropDef { id: "C02", run: c02::run, replay: c02::replay },
         PropDef { id: "C08", run: c08::run, replay: c08::replay },
         PropDef { id: "C10", run: c10::run, replay: c10::replay },
         PropDef { id: "C11", run: c11::run, replay: c11::replay },
